@@ -507,6 +507,48 @@ def synthesis_obligations(R):
          None if ok else ['convergence'], bounded='numeric: N_theta in {12,24,48}, lmax=4, s=-2')
 
 
+def linearity_obligations(R):
+    """sYlm_coefficients is a linear functional of the samples and does not look at how they are stored: for every spin
+    weight, real-dtype samples give the same coefficients as the same samples stored as complex numbers, integer-dtype
+    samples likewise, and a(f + i g) = a(f) + i a(g).  (A shortcut for 'real input' that is only valid for spin 0 breaks this.)"""
+    import aurel.maths as M
+    t0 = time.time()
+    rng = np.random.default_rng(11)
+    Nt = 10
+    th = np.pi * np.arange(0.5, Nt + 1.5, 1) / (Nt + 1)
+    ph = 2 * np.pi * np.arange(0.5, 2 * Nt + 1.5, 1) / (2 * Nt + 1)
+    T, P = np.meshgrid(th, ph, indexing='ij')
+    dth, dph = np.sin(T) * (th[1] - th[0]), ph[1] - ph[0]
+    bad = []
+    worst = 0.0
+    for s_ in (-2, -1, 0, 1, 2):
+        lmax = 3
+        f = rng.standard_normal(T.shape)
+        g = rng.standard_normal(T.shape)
+        fi = rng.integers(-5, 6, size=T.shape)
+        a_f = M.sYlm_coefficients(s_, lmax, f, T, P, dth, dph)
+        a_fc = M.sYlm_coefficients(s_, lmax, f.astype(complex), T, P, dth, dph)
+        a_g = M.sYlm_coefficients(s_, lmax, g.astype(complex), T, P, dth, dph)
+        a_fg = M.sYlm_coefficients(s_, lmax, f + 1j * g, T, P, dth, dph)
+        a_i = M.sYlm_coefficients(s_, lmax, fi, T, P, dth, dph)
+        a_ic = M.sYlm_coefficients(s_, lmax, fi.astype(complex), T, P, dth, dph)
+        for k in a_fc:
+            d1 = abs(a_f[k] - a_fc[k])
+            d2 = abs(a_fg[k] - (a_fc[k] + 1j * a_g[k]))
+            d3 = abs(a_i[k] - a_ic[k])
+            worst = max(worst, d1, d2, d3)
+            if d1 > 1e-10:
+                bad.append(f's={s_}, (l,m)={k}: real-dtype samples give {a_f[k]:.6g}, the same samples stored as complex give {a_fc[k]:.6g}')
+            if d2 > 1e-10:
+                bad.append(f's={s_}, (l,m)={k}: a(f + i g) != a(f) + i a(g)')
+            if d3 > 1e-10:
+                bad.append(f's={s_}, (l,m)={k}: integer-dtype samples give {a_i[k]:.6g}, as complex {a_ic[k]:.6g}')
+    R.numeric.append(dict(obligation='sYlm_coefficients linear / storage independent', residual=worst))
+    R.ob('maths.sYlm_coefficients:linear in the samples and independent of their dtype (real, integer, complex), every spin weight', 'sYlm_coefficients',
+         'refuted' if bad else 'numeric-ok', 'float64', time.time() - t0, '; '.join(bad[:3]) or f'largest difference {worst:.1e}', bad[:5] or None,
+         bounded='numeric: random samples on an 11 x 21 grid, |s| <= 2, l <= 3', replay=lambda o: (bool(bad), '; '.join(bad[:3]) or 'no difference'))
+
+
 def native_quadrature_replay(o=None):
     import aurel.maths as M
     Nt = 200
@@ -586,6 +628,7 @@ def run(R):
     psi4lm_obligations(R)
     interpolate_obligations(R)
     synthesis_obligations(R)
+    linearity_obligations(R)
     R.extra['explanation'] = (f'exact trigonometric-polynomial execution of the real sYlm: orthonormality for |s|<=2, l<={L} (every instance exact, '
                               'family in l bounded); spin-0 reduction; Psi4_lm wiring on stubs; interpolate bounds check by z3; synthesis/decomposition '
                               'round trip numeric')
